@@ -3,6 +3,344 @@ From Eino Require Import Base.Util Model.StreamAcct.
 From Coq Require Import Lia Permutation.
 Open Scope N_scope.
 
+(* ------------------------------------------------------------------ lists *)
+Lemma remove_one_in_perm : forall h l, In h l -> Permutation l (h :: remove_one h l).
+Proof.
+  induction l as [|x l IH]; simpl; intros Hin; [contradiction|].
+  destruct (N.eqb_spec h x) as [->|Hne]; [reflexivity|].
+  destruct Hin as [->|Hin]; [congruence|].
+  rewrite (IH Hin) at 1. apply perm_swap.
+Qed.
+
+Lemma remove_one_perm_cons : forall h a b, Permutation a (h :: b) -> Permutation (remove_one h a) b.
+Proof.
+  intros h a b HP.
+  assert (Hin : In h a) by (eapply Permutation_in; [symmetry; exact HP|left; reflexivity]).
+  apply Permutation_cons_inv with (a := h).
+  rewrite <- (remove_one_in_perm h a Hin). exact HP.
+Qed.
+
+Lemma NoDup_app_intro : forall (A : Type) (a b : list A),
+  NoDup a -> NoDup b -> (forall x, In x a -> In x b -> False) -> NoDup (a ++ b).
+Proof.
+  induction a as [|x a IH]; simpl; intros b Ha Hb Hd; [exact Hb|].
+  inversion Ha; subst. constructor.
+  - intros Hin. apply in_app_or in Hin as [Hin|Hin]; [contradiction|]. eapply Hd; [left; reflexivity|exact Hin].
+  - apply IH; auto. intros y Hy1 Hy2. eapply Hd; [right; exact Hy1|exact Hy2].
+Qed.
+
+Lemma fresh_handles_length : forall from n, List.length (fresh_handles from n) = n.
+Proof. intros. unfold fresh_handles. now rewrite map_length, seq_length. Qed.
+
+Lemma fresh_handles_in : forall from n h, In h (fresh_handles from n) -> from <= h < from + N.of_nat n.
+Proof.
+  unfold fresh_handles. intros from n h Hin. apply in_map_iff in Hin as (i & <- & Hi).
+  apply in_seq in Hi. lia.
+Qed.
+
+Lemma fresh_handles_nodup : forall from n, NoDup (fresh_handles from n).
+Proof.
+  intros. unfold fresh_handles. apply FinFun.Injective_map_NoDup; [|apply seq_NoDup].
+  intros a b Hab. lia.
+Qed.
+
+(* ------------------------------------------------------------------ stores *)
+Definition store_ok (s : store) : Prop :=
+  NoDup (s_open s) /\ forall h, In h (s_open s) -> h < s_next s.
+
+Definition copy_len (n : Z) : nat := if (n <? 2)%Z then 1%nat else Z.to_nat n.
+
+Lemma copy_item_spec : forall h n s hs s',
+  store_ok s -> In h (s_open s) -> copy_item h n s = (hs, s') ->
+  store_ok s' /\ Permutation (s_open s') (remove_one h (s_open s) ++ hs) /\
+  List.length hs = copy_len n /\ s_next s <= s_next s'.
+Proof.
+  intros h n s hs s' [Hnd Hlt] Hin Hc. unfold copy_item, copy_len in *.
+  destruct (n <? 2)%Z eqn:En.
+  - inversion Hc; subst hs s'. repeat split; auto; try lia.
+    rewrite (remove_one_in_perm h (s_open s) Hin) at 1.
+    change (h :: remove_one h (s_open s)) with ([h] ++ remove_one h (s_open s)). apply Permutation_app_comm.
+  - inversion Hc; subst hs s'; clear Hc. simpl. apply Z.ltb_ge in En.
+    assert (Hrem : Permutation (s_open s) (h :: remove_one h (s_open s))) by now apply remove_one_in_perm.
+    assert (Hsub : forall x, In x (remove_one h (s_open s)) -> In x (s_open s)).
+    { intros x Hx. eapply Permutation_in; [symmetry; exact Hrem|right; exact Hx]. }
+    repeat split.
+    + apply NoDup_app_intro.
+      * eapply Permutation_NoDup in Hnd; [|exact Hrem]. now inversion Hnd.
+      * apply fresh_handles_nodup.
+      * intros x Hx Hy. apply Hsub in Hx. apply Hlt in Hx. apply fresh_handles_in in Hy. lia.
+    + intros x Hx. simpl in *. apply in_app_or in Hx as [Hx|Hx].
+      * apply Hsub in Hx. apply Hlt in Hx. lia.
+      * apply fresh_handles_in in Hx. lia.
+    + reflexivity.
+    + apply fresh_handles_length.
+    + lia.
+Qed.
+
+(* ------------------------------------------------------------------ uniqueKeys and the map writes *)
+Lemma memb_in : forall k l, memb k l = true <-> In k l.
+Proof.
+  intros. unfold memb. rewrite existsb_exists. split.
+  - intros (x & Hx & He). apply N.eqb_eq in He. now subst.
+  - intros H. exists k. split; [exact H|apply N.eqb_refl].
+Qed.
+
+Lemma unique_from_spec : forall l seen,
+  NoDup (unique_from seen l) /\
+  (forall k, In k (unique_from seen l) <-> (In k l /\ ~ In k seen)).
+Proof.
+  induction l as [|x l IH]; intros seen; simpl.
+  - split; [constructor|]. intros k; tauto.
+  - destruct (memb x seen) eqn:Em.
+    + apply memb_in in Em. destruct (IH seen) as [Hnd Hiff]. split; [exact Hnd|].
+      intros k. rewrite Hiff. split; [tauto|]. intros [[->|H] Hn]; tauto.
+    + assert (Hx : ~ In x seen) by (intros H; apply memb_in in H; congruence).
+      destruct (IH (x :: seen)) as [Hnd Hiff]. split.
+      * constructor; [|exact Hnd]. rewrite Hiff. simpl. tauto.
+      * intros k. simpl. rewrite Hiff. simpl. split.
+        -- intros [->|[H1 H2]]; [tauto|]. split; [tauto|]. intros H. apply H2. now right.
+        -- intros [[->|H1] H2]; [now left|]. destruct (N.eq_dec x k) as [->|Hne]; [now left|].
+           right. split; [exact H1|]. intros [H|H]; [congruence|contradiction].
+Qed.
+
+Lemma unique_keys_nodup : forall l, NoDup (unique_keys l).
+Proof. intros. apply (unique_from_spec l []). Qed.
+
+Lemma unique_keys_in : forall l k, In k (unique_keys l) <-> In k l.
+Proof. intros. unfold unique_keys. rewrite (proj2 (unique_from_spec l [])). simpl. tauto. Qed.
+
+Lemma unique_from_length : forall l seen, (List.length (unique_from seen l) <= List.length l)%nat.
+Proof.
+  induction l as [|x l IH]; intros seen; simpl; [lia|].
+  destruct (memb x seen); simpl; [specialize (IH seen)|specialize (IH (x :: seen))]; lia.
+Qed.
+
+Lemma unique_keys_length : forall l, (List.length (unique_keys l) <= List.length l)%nat.
+Proof. intros. apply unique_from_length. Qed.
+
+Lemma map_assign_fresh : forall k h m, ~ In k (map fst m) -> map_assign k h m = m ++ [(k, h)].
+Proof.
+  induction m as [|[k' h'] m IH]; simpl; intros Hn; [reflexivity|].
+  destruct (N.eqb_spec k k') as [->|Hne]; [tauto|]. rewrite IH; tauto.
+Qed.
+
+Lemma assign_all_nodup : forall next vs m,
+  NoDup next -> (forall k, In k next -> ~ In k (map fst m)) -> (List.length next <= List.length vs)%nat ->
+  assign_all next vs m = Ok (m ++ combine next vs).
+Proof.
+  induction next as [|k next IH]; intros vs m Hnd Hfresh Hlen; simpl.
+  - now rewrite app_nil_r.
+  - destruct vs as [|h vs]; simpl in Hlen; [lia|]. inversion Hnd; subst.
+    rewrite map_assign_fresh by (apply Hfresh; now left).
+    rewrite IH; [now rewrite <- app_assoc|exact H2| |lia].
+    intros k' Hk'. rewrite map_app. simpl. intros Hin. apply in_app_or in Hin as [Hin|[<-|[]]].
+    + eapply Hfresh; [right; exact Hk'|exact Hin].
+    + contradiction.
+Qed.
+
+Lemma combine_snd_firstn : forall (A B : Type) (a : list A) (b : list B),
+  (List.length a <= List.length b)%nat -> map snd (combine a b) = firstn (List.length a) b.
+Proof.
+  induction a as [|x a IH]; intros b Hl; simpl; [reflexivity|].
+  destruct b as [|y b]; simpl in *; [lia|]. f_equal. apply IH. lia.
+Qed.
+
+Lemma combine_fst : forall (A B : Type) (a : list A) (b : list B),
+  (List.length a <= List.length b)%nat -> map fst (combine a b) = a.
+Proof.
+  induction a as [|x a IH]; intros b Hl; simpl; [reflexivity|].
+  destruct b as [|y b]; simpl in *; [lia|]. f_equal. apply IH. lia.
+Qed.
+
+Lemma last_opt_split : forall (A : Type) (l : list A) x,
+  last_opt l = Some x -> l = firstn (List.length l - 1) l ++ [x].
+Proof.
+  intros A l x H. unfold last_opt in H. apply nth_error_split in H as (l1 & l2 & -> & Hl).
+  rewrite app_length in Hl. simpl in Hl. assert (l2 = []) by (destruct l2; [reflexivity|simpl in Hl; lia]). subst l2.
+  rewrite app_length. simpl. replace (List.length l1 + 1 - 1)%nat with (List.length l1 + 0)%nat by lia.
+  rewrite firstn_app_2. simpl. now rewrite app_nil_r.
+Qed.
+
+Lemma last_opt_some : forall (A : Type) (l : list A), (1 <= List.length l)%nat -> exists x, last_opt l = Some x.
+Proof.
+  intros A l H. unfold last_opt. destruct (nth_error l (List.length l - 1)) eqn:E; [eauto|].
+  apply nth_error_None in E. lia.
+Qed.
+
+(* the shape of the first copy: the copies reserved for the successors, then one per branch *)
+Lemma first_copy_split : forall (vs : list handle) w b,
+  List.length vs = copy_len (Z.of_nat (w + 2 * b)) ->
+  let vs' := firstn (List.length vs - b) vs in
+  let bin := firstn b (skipn (w + b) vs) in
+  vs = vs' ++ bin /\ List.length bin = b /\ (1 <= List.length vs')%nat /\
+  (w + b <= List.length vs)%nat /\ (b <= List.length (skipn (w + b) vs))%nat /\ (b <= List.length vs)%nat /\
+  (List.length vs' = Nat.max 1 (w + b))%nat.
+Proof.
+  intros vs w b Hlen vs' bin. subst vs' bin. unfold copy_len in Hlen.
+  destruct (Z.of_nat (w + 2 * b) <? 2)%Z eqn:E.
+  - apply Z.ltb_lt in E. assert (b = 0)%nat by lia. subst b.
+    rewrite Nat.sub_0_r, firstn_all. change (firstn 0 (skipn (w + 0) vs)) with (@nil handle).
+    rewrite app_nil_r, skipn_length. cbn [Datatypes.length]. repeat split; try lia.
+  - apply Z.ltb_ge in E. rewrite Nat2Z.id in Hlen.
+    replace (List.length vs - b)%nat with (w + b)%nat by lia.
+    assert (Hs : List.length (skipn (w + b) vs) = b) by (rewrite skipn_length; lia).
+    rewrite (firstn_all2 (skipn (w + b) vs)) by lia. rewrite firstn_skipn, firstn_length.
+    repeat split; try lia.
+Qed.
+
+(* ------------------------------------------------------------------ resolveCompletedTasks, one task *)
+Definition next_keys (t : task) : list key := unique_keys (selected t ++ t_write_to t).
+
+(* permutations of handle lists by counting occurrences *)
+Definition cnt (l : list handle) (x : handle) : nat := count_occ N.eq_dec l x.
+Lemma perm_cnt : forall a b, Permutation a b <-> (forall x, cnt a x = cnt b x).
+Proof. intros. apply Permutation_count_occ. Qed.
+Lemma cnt_app : forall a b x, cnt (a ++ b) x = (cnt a x + cnt b x)%nat.
+Proof. intros. apply count_occ_app. Qed.
+Lemma cnt_cons : forall h a x, cnt (h :: a) x = (cnt [h] x + cnt a x)%nat.
+Proof. intros. change (h :: a) with ([h] ++ a). apply cnt_app. Qed.
+Lemma cnt_nil : forall x, cnt [] x = 0%nat.
+Proof. reflexivity. Qed.
+
+Lemma resolve_task_perm : forall t out s,
+  store_ok s -> In out (s_open s) ->
+  exists r, resolve_task t out s = Ok r /\
+    store_ok (r_store r) /\
+    Permutation (s_open (r_store r))
+                (remove_one out (s_open s) ++ r_branch_in r ++ map snd (r_writes r) ++ r_closed r) /\
+    map fst (r_writes r) = next_keys t /\
+    List.length (r_branch_in r) = List.length (t_branches t).
+Proof.
+  intros t out s Hok Hin. unfold resolve_task.
+  set (w := List.length (t_write_to t)). set (b := List.length (t_branches t)).
+  fold (next_keys t). set (next := next_keys t).
+  destruct (copy_item out (Z.of_nat (w + 2 * b)) s) as [vs s1] eqn:E1.
+  destruct (copy_item_spec _ _ _ _ _ Hok Hin E1) as (Hok1 & HP1 & Hlen1 & _).
+  destruct (first_copy_split vs w b Hlen1) as (Hsplit & Hbin & Hvs1 & Hl1 & Hl2 & Hl3 & Hvs').
+  set (vs' := firstn (List.length vs - b) vs) in *.
+  set (bin := firstn b (skipn (w + b) vs)) in *.
+  replace (Nat.ltb (List.length vs) (w + b)) with false by (symmetry; apply Nat.ltb_ge; lia).
+  replace (Nat.ltb (List.length (skipn (w + b) vs)) b) with false by (symmetry; apply Nat.ltb_ge; lia).
+  replace (Nat.ltb (List.length vs) b) with false by (symmetry; apply Nat.ltb_ge; lia).
+  assert (Hnd : NoDup next) by apply unique_keys_nodup.
+  rewrite perm_cnt in HP1.
+  destruct (0 <? Z.of_nat (List.length next) - Z.of_nat (List.length vs'))%Z eqn:Ec.
+  - (* the branches generated more successors than copies were reserved *)
+    apply Z.ltb_lt in Ec.
+    destruct (last_opt_some _ vs' Hvs1) as (l & Hl). rewrite Hl.
+    pose proof (last_opt_split _ _ _ Hl) as Hvs'split.
+    set (pre := firstn (List.length vs' - 1) vs') in *.
+    destruct (copy_item l (Z.of_nat (List.length next) - Z.of_nat (List.length vs') + 1) s1) as [nvs s2] eqn:E2.
+    assert (HP1' : Permutation (s_open s1) (l :: (remove_one out (s_open s) ++ pre ++ bin))).
+    { apply perm_cnt. intros x. rewrite HP1, Hsplit, Hvs'split. rewrite cnt_cons, !cnt_app. lia. }
+    assert (Hl_in : In l (s_open s1)).
+    { eapply Permutation_in; [symmetry; exact HP1'|]. now left. }
+    destruct (copy_item_spec _ _ _ _ _ Hok1 Hl_in E2) as (Hok2 & HP2 & Hlen2 & _).
+    apply remove_one_perm_cons in HP1'. rewrite perm_cnt in HP1', HP2.
+    assert (Hnvs : List.length nvs = (List.length next - List.length vs' + 1)%nat).
+    { rewrite Hlen2. unfold copy_len.
+      replace (Z.of_nat (List.length next) - Z.of_nat (List.length vs') + 1 <? 2)%Z with false
+        by (symmetry; apply Z.ltb_ge; lia). lia. }
+    assert (Hpre : List.length pre = (List.length vs' - 1)%nat) by (subst pre; rewrite firstn_length; lia).
+    assert (Hfull : List.length (pre ++ nvs) = List.length next) by (rewrite app_length; lia).
+    simpl. rewrite assign_all_nodup; [|exact Hnd|intros k _ []|lia]. simpl.
+    eexists. split; [reflexivity|]. simpl. repeat split; try apply Hok2.
+    + rewrite combine_snd_firstn by lia. rewrite <- Hfull, firstn_all, skipn_all, app_nil_r.
+      apply perm_cnt. intros x. rewrite HP2, !cnt_app, HP1', !cnt_app. lia.
+    + apply combine_fst. lia.
+    + exact Hbin.
+  - (* enough copies: the spare ones are closed *)
+    apply Z.ltb_ge in Ec. simpl.
+    rewrite assign_all_nodup; [|exact Hnd|intros k _ []|lia]. simpl.
+    eexists. split; [reflexivity|]. simpl. repeat split; try apply Hok1.
+    + rewrite combine_snd_firstn by lia.
+      apply perm_cnt. intros x. rewrite HP1, Hsplit, !cnt_app.
+      rewrite <- (firstn_skipn (List.length next) vs') at 1. rewrite cnt_app. lia.
+    + apply combine_fst. lia.
+    + exact Hbin.
+Qed.
+
+(* ------------------------------------------------------------------ updateValues *)
+Lemma update_values_perm : forall t writes,
+  Permutation (map snd writes)
+              (map snd (u_chan (update_values t writes)) ++ u_closed (update_values t writes)).
+Proof.
+  intros t writes. unfold update_values. simpl. induction writes as [|[k h] ws IH]; simpl; [constructor|].
+  destruct (is_data_pred t k); simpl.
+  - now constructor.
+  - rewrite IH. apply Permutation_middle.
+Qed.
+
+Lemma update_values_count : forall t writes,
+  (List.length (u_chan (update_values t writes)) + List.length (u_closed (update_values t writes)) = List.length writes)%nat.
+Proof.
+  intros. pose proof (Permutation_length (update_values_perm t writes)) as H.
+  rewrite app_length, !map_length in H. lia.
+Qed.
+
+(* ------------------------------------------------------------------ core statements *)
+Lemma init_store_ok : forall h, store_ok (init_store h).
+Proof.
+  intros h. split; simpl.
+  - constructor; [intros []|constructor].
+  - intros x [<-|[]]. lia.
+Qed.
+
+(* handle level: after resolveCompletedTasks + updateValues every live handle derived from the
+   task's output is held by exactly one consumer, and nothing else changed in the store *)
+Lemma every_copy_has_one_consumer_l : forall t out s,
+  store_ok s -> In out (s_open s) ->
+  exists r, resolve_task t out s = Ok r /\
+    let u := update_values t (r_writes r) in
+    NoDup (s_open (r_store r)) /\
+    Permutation (s_open (r_store r))
+                (remove_one out (s_open s) ++
+                 r_branch_in r ++ map snd (u_chan u) ++ (u_closed u ++ r_closed r)) /\
+    map fst (r_writes r) = next_keys t /\
+    List.length (r_branch_in r) = List.length (t_branches t).
+Proof.
+  intros t out s Hok Hin. destruct (resolve_task_perm t out s Hok Hin) as (r & Hr & Hok' & HP & Hk & Hb).
+  exists r. split; [exact Hr|]. cbv zeta. repeat split; [apply Hok'| |exact Hk|exact Hb].
+  pose proof (update_values_perm t (r_writes r)) as HU. rewrite perm_cnt in HP, HU.
+  apply perm_cnt. intros x. rewrite HP, !cnt_app, HU, !cnt_app. lia.
+Qed.
+
+(* count level, as in DESIGN §5: copies made = channel writes + branch evaluations + explicit closes *)
+Lemma copies_eq_consumers_l : forall t,
+  exists a, account_task t = Ok a /\
+    a_handles a = (a_branch_evals a + a_chan_writes a + a_closes a)%nat /\
+    a_branch_evals a = List.length (t_branches t) /\
+    (a_chan_writes a + a_update_closes a)%nat = List.length (next_keys t) /\
+    a_closes a = (a_resolve_closes a + a_update_closes a)%nat.
+Proof.
+  intros t. unfold account_task.
+  destruct (resolve_task_perm t 0 (init_store 0) (init_store_ok 0)) as (r & Hr & Hok' & HP & Hk & Hb); [now left|].
+  rewrite Hr. simpl. eexists. split; [reflexivity|]. unfold account_of. simpl.
+  pose proof (update_values_count t (r_writes r)) as HU. unfold update_values in HU. simpl in HU.
+  apply Permutation_length in HP. simpl in HP.
+  rewrite !app_length, map_length in HP.
+  assert (Hw : List.length (r_writes r) = List.length (next_keys t)) by (rewrite <- Hk; now rewrite map_length).
+  repeat split; lia.
+Qed.
+
+Lemma balanced_l : forall t, exists a, account_task t = Ok a /\ balanced a = true.
+Proof.
+  intros t. destruct (copies_eq_consumers_l t) as (a & Ha & H1 & _). exists a. split; [exact Ha|].
+  unfold balanced. now apply Nat.eqb_eq.
+Qed.
+
+(* every generated successor receives exactly one value *)
+Lemma successors_once_l : forall t out s r,
+  store_ok s -> In out (s_open s) -> resolve_task t out s = Ok r ->
+  NoDup (map fst (r_writes r)) /\
+  (forall k, In k (map fst (r_writes r)) <-> In k (selected t) \/ In k (t_write_to t)).
+Proof.
+  intros t out s r Hok Hin Hr. destruct (resolve_task_perm t out s Hok Hin) as (r' & Hr' & _ & _ & Hk & _).
+  rewrite Hr in Hr'. inversion Hr'; subst r'. rewrite Hk. unfold next_keys. split.
+  - apply unique_keys_nodup.
+  - intros k. rewrite unique_keys_in, in_app_iff. tauto.
+Qed.
+
 (* ---- the defect F-C19 on the code before the repair, by evaluation *)
 Definition witness_none : task :=
   {| t_node := 2; t_write_to := [1];
@@ -10,3 +348,17 @@ Definition witness_none : task :=
 Definition witness_twice : task :=
   {| t_node := 2; t_write_to := [3];
      t_branches := [ {| b_nodata := false; b_ends := [3; 4]; b_sel := [3] |} ] |}.
+
+Lemma v0_refuted_l :
+  ~ (forall t a, account_task_v0 t = Ok a ->
+       a_handles a = (a_branch_evals a + a_chan_writes a + a_closes a)%nat).
+Proof.
+  intros H. specialize (H witness_none). vm_compute in H. specialize (H _ eq_refl). discriminate.
+Qed.
+
+Lemma v0_twice_refuted_l :
+  ~ (forall t a, account_task_v0 t = Ok a ->
+       a_handles a = (a_branch_evals a + a_chan_writes a + a_closes a)%nat).
+Proof.
+  intros H. specialize (H witness_twice). vm_compute in H. specialize (H _ eq_refl). discriminate.
+Qed.
